@@ -493,7 +493,22 @@ def facts_super(f):
     return facts.super_init_call(f)
 
 
+def d8_interval_normal_form(ctx):
+    """Every model reads its supports from a PreferenceInterval after the constructor has split off the candidates whose
+    support is exactly zero and divided the rest by their sum; a candidate with a tiny positive share must stay among the
+    ranked ones.  Decided by C15.R1's rules on PreferenceInterval."""
+    from rules import c15
+    sub = type(ctx)(ctx.prog, ctx.prop, ctx.tier)
+    c15.r1_interval(sub)
+    for o in sub.obs:
+        o.rule = "C16.D8"
+        ctx.obs.append(o)
+    if len(sub.obs) < 8:
+        ctx.vanished(f"PreferenceInterval obligations: only {len(sub.obs)}")
+
+
 RULES = [
+    ("C16.D8", d8_interval_normal_form, 8, "prerequisite: PreferenceInterval splits off exactly the zero supports, then normalises by the sum (C15.R1)"),
     ("C16.D1", d1_alignment, 12, "population/probability alignment at every weighted draw in the package (reaching definitions incl. loop-carried)"),
     ("C16.D2", d2_metropolis, 7, "MCMC kernels: uniform adjacent proposal, swap move, Metropolis acceptance (min(1,r) or reciprocal pair)"),
     ("C16.D3", d3_spatial_sort, 3, "spatial models rank candidates by ascending distance"),
